@@ -1332,20 +1332,78 @@ func (ev *Event) Serialize() ([]byte, error) {
 		return nil, errors.New("nil event")
 	}
 
-	v := [6]any{
-		0,
-		ev.Pubkey,
-		ev.CreatedAt,
-		ev.Kind,
-		ev.Tags,
-		ev.Content,
+	// NIP-01: [0,pubkey,created_at,kind,tags,content] without whitespace.
+	// encoding/json is not used here because it also escapes <, >, &,
+	// U+2028 and U+2029, which changes the event id.
+	ret := make([]byte, 0, 128+len(ev.Content))
+	ret = append(ret, "[0,"...)
+	ret = appendNIP01String(ret, ev.Pubkey)
+	ret = append(ret, ',')
+	ret = strconv.AppendInt(ret, ev.CreatedAt, 10)
+	ret = append(ret, ',')
+	ret = strconv.AppendInt(ret, ev.Kind, 10)
+	ret = append(ret, ',')
+	if ev.Tags == nil {
+		ret = append(ret, "null"...)
+	} else {
+		ret = append(ret, '[')
+		for i, tag := range ev.Tags {
+			if i > 0 {
+				ret = append(ret, ',')
+			}
+			if tag == nil {
+				ret = append(ret, "null"...)
+				continue
+			}
+			ret = append(ret, '[')
+			for j, s := range tag {
+				if j > 0 {
+					ret = append(ret, ',')
+				}
+				ret = appendNIP01String(ret, s)
+			}
+			ret = append(ret, ']')
+		}
+		ret = append(ret, ']')
 	}
-
-	ret, err := json.Marshal(&v)
-	if err != nil {
-		return nil, fmt.Errorf("failed to marshal event: %w", err)
-	}
+	ret = append(ret, ',')
+	ret = appendNIP01String(ret, ev.Content)
+	ret = append(ret, ']')
 	return ret, nil
+}
+
+const nip01HexDigits = "0123456789abcdef"
+
+// appendNIP01String appends s as a JSON string, escaping only what NIP-01
+// mandates (and the remaining control characters, which JSON requires).
+// Every other byte is copied verbatim.
+func appendNIP01String(dst []byte, s string) []byte {
+	dst = append(dst, '"')
+	for i := 0; i < len(s); i++ {
+		switch c := s[i]; c {
+		case '"':
+			dst = append(dst, '\\', '"')
+		case '\\':
+			dst = append(dst, '\\', '\\')
+		case '\n':
+			dst = append(dst, '\\', 'n')
+		case '\r':
+			dst = append(dst, '\\', 'r')
+		case '\t':
+			dst = append(dst, '\\', 't')
+		case '\b':
+			dst = append(dst, '\\', 'b')
+		case '\f':
+			dst = append(dst, '\\', 'f')
+		default:
+			if c < 0x20 {
+				dst = append(dst, '\\', 'u', '0', '0', nip01HexDigits[c>>4], nip01HexDigits[c&0xf])
+			} else {
+				dst = append(dst, c)
+			}
+		}
+	}
+	return append(dst, '"')
 }
 
 func (ev *Event) Verify() (bool, error) {
